@@ -69,6 +69,19 @@ pub fn program(name: &str) -> Program {
                 n(N, Add(C(1), In(1))),
             ],
         },
+        // a projection that combines a deep and a shallow projection branch
+        // over one firewall (backward projection runs the branches in
+        // parallel tasks)
+        "projdiamond" => Program {
+            nodes: vec![
+                n(F, Add(In(0), In(1))),
+                n(P, Id(C(0))),
+                n(P, Sat(C(0))),
+                n(P, Id(C(1))),
+                n(P, Add(C(3), C(2))),
+                n(N, Id(C(4))),
+            ],
+        },
         "chain" => Program {
             nodes: vec![
                 n(N, Id(In(0))),
@@ -309,6 +322,19 @@ pub fn params(thorough: bool) -> Vec<(P, usize)> {
             vec![keys(&[2]), keys(&[3])],
         ),
         d(2, 3),
+    ));
+    v.push((
+        base("projdiamond", keys(&[5]), Some((0, 1)), vec![keys(&[5])]),
+        d(2, 3),
+    ));
+    v.push((
+        base(
+            "projdiamond",
+            keys(&[5]),
+            Some((0, 2)),
+            vec![keys(&[5]), keys(&[4])],
+        ),
+        d(1, 2),
     ));
     v.push((
         base(
